@@ -25,6 +25,8 @@ def run(ctx, pid=PID, check=_life.check_c03, with_up=WITH_UP):
     tid = 0
     for ei, entry in enumerate(entries):
         pool = by_mode[entry["mode"]]
+        if entry.get("exog"):
+            pool = [b for b in pool if not any(s["op"] == "upd_predict" for s in b["hist"])]
         if ctx.quick:
             n = 14 if entry["cost"] == "slow" else 60
         else:
@@ -54,7 +56,7 @@ def run(ctx, pid=PID, check=_life.check_c03, with_up=WITH_UP):
                             "expected_last": beh["hist"][-1]["exp"]["times"] or beh["hist"][-1]["exp"]["cutoff"]})
     # code -> spec: python-random longer histories on the fast forecasters, judged by TLC
     nrand = 150 if ctx.quick else 1500
-    fast = [e for e in entries if e["cost"] == "fast"]
+    fast = [e for e in entries if e["cost"] == "fast" and not e.get("exog")]
     recs = []
     meta = {}
     for t in range(nrand):
